@@ -303,12 +303,23 @@ func (e *Engine) verifyFunction(key string) (u *Unit, err error) {
 		}
 	}
 	env := fr.baseEnv(h)
+	isPkgInit := fn.Name() == "init" && fn.Synthetic != ""
+	if isPkgInit {
+		if g, ok := fn.Pkg.Members["init$guard"].(*ssa.Global); ok {
+			c, s := u.globComp(g)
+			u.assume(not(u.comp(h, c, s))) // the initialiser body runs once
+		}
+	}
 	// package-level invariants established by init functions
 	if fn.Name() != "init" {
 		for _, g := range e.lib.Globals {
+			if !u.active(g.Clause.Props) {
+				continue
+			}
 			genv := u.newEnv(h)
 			genv.pkg = e.ssaPkgs[g.Pkg]
 			u.assume(genv.evalBool(g.Clause.Expr))
+			u.globalsUsed[g.Pkg] = true
 		}
 	}
 	// type invariant of the receiver (methods declared in the type's package)
@@ -379,6 +390,19 @@ func (e *Engine) verifyFunction(key string) (u *Unit, err error) {
 	// vacuity: some return is reachable
 	o = u.oblig("body-reach", "the function can return normally under its precondition", res.reach, nil)
 	o.ExpectSat = true
+	if isPkgInit {
+		for _, g := range e.lib.Globals {
+			if g.Pkg != fn.Pkg.Pkg.Path() || !u.active(g.Clause.Props) {
+				continue
+			}
+			genv := u.newEnv(res.heap)
+			genv.pkg = fn.Pkg
+			for _, part := range splitConj(g.Clause.Expr) {
+				ob := u.oblig("global-init", "package initialisation establishes: "+exprString(part), implies(res.reach, genv.evalBool(part)), g.Clause.Props)
+				ob.Pos = g.Clause.Where
+			}
+		}
+	}
 	if ct == nil {
 		return u, nil
 	}
